@@ -187,7 +187,30 @@ def generate():
     need(not re.search(r'\b(?:static|thread_local)\b(?!\s+const\b)(?!\s+constexpr\b)', s),
          'categoryfilter.cpp: no writable object with static or thread storage duration (filter() keeps no state)')
 
-    out = HDR % 'src/qtlogger/filters/categoryfilter.cpp, src/qtlogger/filters/categoryfilter.h, src/qtlogger/logmessage.h'
+    # --- front end (round 8): SimplePipeline::filterCategory(rules) - which object the pipeline gets and which rule text
+    # is handed to its constructor (cat_front in CategoryDefs.v)
+    sp = strip_comments(rd('simplepipeline.cpp'))
+    need(re.search(r'SimplePipeline &SimplePipeline::filterCategory\(const QString &rules\)', flat(sp)),
+         'SimplePipeline &SimplePipeline::filterCategory(const QString &rules)')
+    need(len(re.findall(r'\bSimplePipeline::filterCategory\s*\(', sp)) == 1, 'simplepipeline.cpp: one definition of SimplePipeline::filterCategory')
+    fc = flat(fn_body(sp, 'SimplePipeline::filterCategory')).strip()
+    empty_arg = r'(?:QString\(\)|QString\(""\)|QStringLiteral\(""\)|QLatin1String\(""\)|"")'
+    m_new = re.fullmatch(r'append\(CategoryFilterPtr::create\((rules|%s)\)\); return \*this;' % empty_arg, fc)
+    m_static = re.fullmatch(r'static (?:const )?(?:auto|CategoryFilterPtr) (\w+) = CategoryFilterPtr::create\((rules|%s)\); '
+                            r'append\(\1\); return \*this;' % empty_arg, fc)
+    if m_new:
+        front_obj, front_arg = 'FNew', ('ArgRules' if m_new.group(1) == 'rules' else 'ArgEmpty')
+    elif m_static:
+        front_obj, front_arg = 'FSharedStatic', ('ArgRules' if m_static.group(2) == 'rules' else 'ArgEmpty')
+    else:
+        raise AnchorError('ANCHOR NOT FOUND: SimplePipeline::filterCategory: append(CategoryFilterPtr::create(rules)); return *this;  (got %r)' % fc[:200])
+    sph = flat(strip_comments(rd('simplepipeline.h')))
+    need(re.search(r'SimplePipeline &filterCategory\(const QString &rules\);', sph), 'simplepipeline.h: SimplePipeline &filterCategory(const QString &rules);')
+    need(re.search(r'\bCategoryFilter\(const QString &rules\);', flat(hdr)), 'categoryfilter.h: CategoryFilter(const QString &rules); (one constructor, no default argument)')
+    need(len(re.findall(r'\bCategoryFilter\s*\(', hdr)) == 1, 'categoryfilter.h: exactly one constructor of CategoryFilter')
+
+    out = HDR % ('src/qtlogger/filters/categoryfilter.cpp, src/qtlogger/filters/categoryfilter.h, src/qtlogger/logmessage.h, '
+                 'src/qtlogger/simplepipeline.cpp, src/qtlogger/simplepipeline.h')
     out += 'Require Import List NArith.\nImport ListNotations.\nRequire Import QtlVerif.CategoryDefs.\nLocal Open Scope N_scope.\n'
     out += '(* rule regex: %s *)\n' % rx.replace('*)', '* )').replace('(*', '( *').replace('"', "''")
     out += 'Definition src_cfg : cat_cfg := {|\n'
@@ -196,4 +219,6 @@ def generate():
     out += '  values := [%s];\n' % '; '.join('(%s, %s)' % (coq_str(v), 'true' if v == enabling else 'false') for v in value_names)
     out += '  star := %d; matcher := %s;\n' % (star, matcher)
     out += '  default_verdict := %s; shape := %s |}.\n' % (default_verdict, shape)
+    out += '(* SimplePipeline::filterCategory: %s *)\n' % fc.replace('*)', '* )').replace('(*', '( *').replace('"', "''")
+    out += 'Definition src_cat_front : cat_front := {| fr_obj := %s; fr_arg := %s |}.\n' % (front_obj, front_arg)
     return {'SrcCategory.v': out}
